@@ -405,8 +405,8 @@ struct C06 : World {
   // that the rest of the space stays explorable.  Set to false once /repo is repaired.
   static constexpr bool AVOID_RAW_OVERFLOW_STUCK = false;   // raw line that does not fit -> mux rejects every later frame
   static constexpr bool AVOID_RAW_ONE_BYTE_GAP = false;     // raw line + one byte stuffing gap -> assert in encode_stuffing
-  static constexpr bool AVOID_ZERO_LINE_AFTER_RAW = true;  // Teletext line 0 after a raw line of field 2 -> wrong field_parity
-  static constexpr bool AVOID_TS_FIRST_SINGLE_PACKET = true;  // TS demux drops a 184 byte PES packet met while synchronising
+  static constexpr bool AVOID_ZERO_LINE_AFTER_RAW = false;  // Teletext line 0 after a raw line of field 2 -> wrong field_parity
+  static constexpr bool AVOID_TS_FIRST_SINGLE_PACKET = false;  // TS demux drops a 184 byte PES packet met while synchronising
 
   Plan generate(uint64_t seed, const std::string& tier) override {
     Plan p; p.world = name(); p.seed = seed;
